@@ -673,3 +673,152 @@ func ruleR077(c *Ctx) {
 		c.Undecided("value#text-to-number", token.NoPos, "no text to number conversion found besides the number parser (toInt/toFloat expected)")
 	}
 }
+
+// ---------------------------------------------------------------------------
+// R07.8 errors are not swallowed.
+//
+// In a function that reports failures through a last result of type error:
+// on the branch on which an error obtained from a call is known to be
+// non-nil, no path may reach a *success* return (a literal nil as the error
+// result) without looking at the error again (passing it on, wrapping it,
+// storing it, logging it). `if err != nil { return nil }` turns a failure of
+// an element, a closure or a writer into an empty or truncated result.
+
+func ruleR078(c *Ctx) {
+	var pkgs []*packages.Package
+	for _, rel := range []string{"value", "value/export", "value/export/xmlWriter", "funcGen", "listMap"} {
+		if p := c.Pkg(rel); p != nil {
+			pkgs = append(pkgs, p)
+		}
+	}
+	nFn, nTests := 0, 0
+	forEachFuncBody(pkgs, func(pkg *packages.Package, fn ast.Node, body *ast.BlockStmt) {
+		info := pkg.TypesInfo
+		var sig *types.Signature
+		switch t := fn.(type) {
+		case *ast.FuncDecl:
+			if o, ok := info.Defs[t.Name].(*types.Func); ok {
+				sig, _ = o.Type().(*types.Signature)
+			}
+		case *ast.FuncLit:
+			sig, _ = info.TypeOf(t).(*types.Signature)
+		}
+		if sig == nil || sig.Results().Len() == 0 || !isErrorType(sig.Results().At(sig.Results().Len()-1).Type()) {
+			return
+		}
+		g := c.CFG(fn)
+		if g == nil {
+			return
+		}
+		nFn++
+		// error variables of this function that are defined by a call
+		errVars := map[types.Object]string{}
+		inspectNoLit(body, func(x ast.Node) bool {
+			as, ok := x.(*ast.AssignStmt)
+			if !ok || len(as.Rhs) != 1 {
+				return true
+			}
+			call, ok := ast.Unparen(as.Rhs[0]).(*ast.CallExpr)
+			if !ok {
+				return true
+			}
+			// the try idiom of the language: func() (v, err) { defer recover…; return try(…) }() - its error is what the
+			// catch part of the program handles; turning it into a value is the meaning of try/catch
+			if lit, ok := ast.Unparen(call.Fun).(*ast.FuncLit); ok && c.startsWithRecoveringDefer(pkg, lit.Body) {
+				return true
+			}
+			for _, l := range as.Lhs {
+				if id, ok := l.(*ast.Ident); ok && id.Name != "_" {
+					if o := info.ObjectOf(id); o != nil && isErrorType(o.Type()) {
+						errVars[o] = nodeStr(c.Fset, call.Fun)
+					}
+				}
+			}
+			return true
+		})
+		if len(errVars) == 0 {
+			return
+		}
+		isSuccess := func(x ast.Node) bool {
+			r, ok := x.(*ast.ReturnStmt)
+			if !ok || len(r.Results) != sig.Results().Len() {
+				return false
+			}
+			id, ok := ast.Unparen(r.Results[len(r.Results)-1]).(*ast.Ident)
+			return ok && id.Name == "nil"
+		}
+		fname := c.FuncName(fn) + litSuffix(c, fn)
+		reported := map[types.Object]bool{}
+		for _, b := range g.G.Blocks {
+			if !g.live[b.Index] || len(b.Succs) != 2 {
+				continue
+			}
+			cond := g.condOf(b)
+			if cond == nil {
+				continue
+			}
+			for i, succ := range b.Succs {
+				var leaves []Guard
+				expandGuard(cond, i == 0, &leaves)
+				for _, gd := range leaves {
+					be, ok := ast.Unparen(gd.Cond).(*ast.BinaryExpr)
+					if !ok || be.Op != token.NEQ || !gd.Val {
+						continue
+					}
+					id, ok := ast.Unparen(be.X).(*ast.Ident)
+					if !ok {
+						continue
+					}
+					if y, ok := ast.Unparen(be.Y).(*ast.Ident); !ok || y.Name != "nil" {
+						continue
+					}
+					obj := info.ObjectOf(id)
+					from, isErr := errVars[obj]
+					if !isErr || reported[obj] {
+						continue
+					}
+					nTests++
+					uses := func(x ast.Node) bool {
+						return containsNodeDeep(x, func(y ast.Node) bool {
+							uid, ok := y.(*ast.Ident)
+							return ok && info.ObjectOf(uid) == obj
+						})
+					}
+					// an edge on which another error is known to be non-nil: an earlier error was recorded and takes precedence
+					otherErrKnown := func(cond ast.Expr, val bool) bool {
+						var ls []Guard
+						expandGuard(cond, val, &ls)
+						for _, l := range ls {
+							ob, ok := ast.Unparen(l.Cond).(*ast.BinaryExpr)
+							if !ok || ob.Op != token.NEQ || !l.Val {
+								continue
+							}
+							if y, ok := ast.Unparen(ob.Y).(*ast.Ident); !ok || y.Name != "nil" {
+								continue
+							}
+							if !isErrorType(info.TypeOf(ob.X)) {
+								continue
+							}
+							if oid, ok := ast.Unparen(ob.X).(*ast.Ident); ok && info.ObjectOf(oid) == obj {
+								continue
+							}
+							return false
+						}
+						return true
+					}
+					if found, hit := g.PathEdgesFromBlock(succ, isSuccess, uses, otherErrKnown); found {
+						reported[obj] = true
+						at := c.posStr(hit.Pos())
+						key := fmt.Sprintf("%s#swallowed-error:%s", fname, id.Name)
+						c.Violation(key, cond.Pos(), "where the error %s returned by %s is known to be non-nil, a path leads to the success return at %s without the error being looked at again: the failure is turned into a (shortened, empty or default) result", id.Name, from, at)
+					}
+				}
+			}
+		}
+	})
+	if nFn < 100 {
+		c.Undecided("value#functions-reporting-errors", token.NoPos, "only %d functions with an error result found", nFn)
+		return
+	}
+	c.OK("value#errors-not-swallowed", token.NoPos, "%d functions with an error result, %d branches on a non-nil error from a call: none reaches a success return without using the error", nFn, nTests)
+}
